@@ -44,11 +44,19 @@ mod c15 {
             3 => {
                 // build the map through the public API, check it is the intended one,
                 // write it as a query string and parse that back
+                // keys are stored as Cow: exercise both representations (an owned String and a
+                // `&'static str`, as literal keys in application code are)
+                let borrowed = c.at(2).num() == 1;
                 let mut m = ParamsMap::new();
                 for kv in arg.list() {
                     let k = text(kv.at(0));
                     for v in kv.at(1).list() {
-                        m.insert(k.clone(), Url::escape(&text(v)));
+                        if borrowed {
+                            let ks: &'static str = Box::leak(k.clone().into_boxed_str());
+                            m.insert(ks, Url::escape(&text(v)));
+                        } else {
+                            m.insert(k.clone(), Url::escape(&text(v)));
+                        }
                     }
                 }
                 let want = Lst(arg
